@@ -13,17 +13,19 @@ Definition rb {A B} (r : res A) (k : A -> res B) : res B :=
 
 (* ---- observation of a value modulo the hidden fourth lane of Vec3A-like slots *)
 Inductive shp := SL | SH | ST (l : list shp) | SO (s : shp).
-Fixpoint erase (s : shp) (v : val O) {struct s} : val O :=
+Fixpoint erase (s : shp) (v : valO O) {struct s} : valO O :=
   match s with
   | SL => v
   | SH => VUnit
   | ST ss => match v with
-             | VT vs => VT ((fix go (ss : list shp) (vs : list (val O)) {struct ss} : list (val O) :=
+             | VT vs => VT ((fix go (ss : list shp) (vs : list (valO O)) {struct ss} : list (valO O) :=
                               match ss, vs with s :: ss', v :: vs' => erase s v :: go ss' vs' | _, vs => vs end) ss vs)
              | _ => v end
   | SO s' => match v with VOpt (Some x) => VOpt (Some (erase s' x)) | _ => v end
   end.
-Definition rerase (s : shp) (r : res (val O)) : res (val O) := match r with Ok v => Ok (erase s v) | e => e end.
+Definition is_ok {A} (r : res A) : bool := match r with Ok _ => true | _ => false end.
+Definition is_panic {A} (r : res A) : bool := match r with Panic => true | _ => false end.
+Definition rerase (s : shp) (r : res (valO O)) : res (valO O) := match r with Ok v => Ok (erase s v) | e => e end.
 
 (* ---- sequencing of primitives that may panic *)
 Definition pb {B} (o : option Z) (k : Z -> res B) : res B := match o with Some z => k z | None => Panic end.
@@ -44,4 +46,32 @@ Ltac step :=
       | context[if _ then _ else _] => fail
       | _ => case x end
   end.
-Ltac solve_struct := vm_compute; repeat (step; vm_compute); reflexivity.
+(* float predicate / comparison atoms (the abstract variables left by [destruct O], passed by name), innermost first *)
+Ltac has_atom P32 C32 P64 C64 x :=
+  match x with context[P32 _ _] => idtac | context[C32 _ _ _] => idtac | context[P64 _ _] => idtac | context[C64 _ _ _] => idtac end.
+Ltac split1 P32 C32 P64 C64 :=
+  match goal with
+  | |- context[P32 ?p ?x] => tryif has_atom P32 C32 P64 C64 x then fail else case (P32 p x)
+  | |- context[C32 ?c ?x ?y] => tryif first [has_atom P32 C32 P64 C64 x | has_atom P32 C32 P64 C64 y] then fail else case (C32 c x y)
+  | |- context[P64 ?p ?x] => tryif has_atom P32 C32 P64 C64 x then fail else case (P64 p x)
+  | |- context[C64 ?c ?x ?y] => tryif first [has_atom P32 C32 P64 C64 x | has_atom P32 C32 P64 C64 y] then fail else case (C64 c x y)
+  end.
+Ltac clear_unused0 := repeat match goal with H : _ |- _ => clear H end.
+Ltac solve_struct := vm_compute; try reflexivity; clear_unused0; repeat (step; vm_compute; try reflexivity).
+
+(* two stages.  Stage 1 (integer primitives still abstract, so normal forms stay small): every float predicate /
+   comparison atom is generalised to a boolean variable, innermost first (sound: the generalised goal is stronger).
+   Stage 2: the integer primitives are made concrete once ([unlock] rewrites with the equations of IntStd), then the
+   boolean variables are destructed and each closed leaf is decided by computation. *)
+Ltac gen1 P32 C32 P64 C64 :=
+  match goal with
+  | |- context[P32 ?p ?x] => tryif has_atom P32 C32 P64 C64 x then fail else (let b := fresh "atm" in generalize (P32 p x); intro b)
+  | |- context[C32 ?c ?x ?y] => tryif first [has_atom P32 C32 P64 C64 x | has_atom P32 C32 P64 C64 y] then fail else (let b := fresh "atm" in generalize (C32 c x y); intro b)
+  | |- context[P64 ?p ?x] => tryif has_atom P32 C32 P64 C64 x then fail else (let b := fresh "atm" in generalize (P64 p x); intro b)
+  | |- context[C64 ?c ?x ?y] => tryif first [has_atom P32 C32 P64 C64 x | has_atom P32 C32 P64 C64 y] then fail else (let b := fresh "atm" in generalize (C64 c x y); intro b)
+  end.
+Ltac clear_unused := repeat match goal with H : _ |- _ => clear H end.   (* per-goal cost of case/destruct grows with the context *)
+Ltac destruct_bools := repeat match goal with b : bool |- _ => destruct b end.
+Ltac solve_z P32 C32 P64 C64 CHK unlock :=
+  vm_compute; try reflexivity; repeat (gen1 P32 C32 P64 C64);
+  unlock; clear_unused; destruct_bools; vm_compute; try reflexivity; repeat (step; vm_compute; try reflexivity).
